@@ -72,16 +72,31 @@ func (rm *RegistrationManager) HandleRegUpdates(ctx context.Context, regChan <-c
 	// distribute messages to workers. When workers are unavailable messages are
 	// added into channel buffer until full, then dropped.
 distrLoop:
-	for msg := range regChan {
-		rm.addIngestMessage()
-		select {
-		case <-ctx.Done():
+	for {
+		// A stop request takes priority over pending registrations. The select
+		// below picks at random when the context is cancelled and a message is
+		// ready, so without this check a busy input could keep the loop going.
+		if ctx.Err() != nil {
 			logger.Infof("closing all ingest threads")
 			break distrLoop
-		case shallowBuffer <- msg:
-		default:
-			logger.Tracef("dropping registration")
-			rm.addDroppedMessage()
+		}
+
+		select {
+		case <-ctx.Done():
+			// wakes the loop when no registrations are arriving
+			logger.Infof("closing all ingest threads")
+			break distrLoop
+		case msg, ok := <-regChan:
+			if !ok {
+				break distrLoop
+			}
+			rm.addIngestMessage()
+			select {
+			case shallowBuffer <- msg:
+			default:
+				logger.Tracef("dropping registration")
+				rm.addDroppedMessage()
+			}
 		}
 	}
 
